@@ -273,6 +273,25 @@ func checkProgram(p prog) {
 	}
 	for _, n := range tf.Nodes {
 		switch n := n.(type) {
+		case parser.TemplateFileGoExpression:
+			// a block of top-level Go code (after the package clause): its range is recorded, the target range holds the
+			// block's text and leads back to the block
+			if n.BeforePackage || strings.TrimSpace(n.Expression.Value) == "" {
+				continue
+			}
+			symbols++
+			r := n.Expression.Range
+			tgt, ok := sm.SymbolTargetRangeFromSource(r.From.Line, r.From.Col)
+			if !ok {
+				fail("symbol-unmapped", fmt.Sprintf("Go block %q at %d:%d has no symbol range", clipS(n.Expression.Value), r.From.Line, r.From.Col))
+				continue
+			}
+			if int(tgt.To.Index) > len(raw) || tgt.From.Index > tgt.To.Index || !strings.HasPrefix(string(raw[tgt.From.Index:tgt.To.Index]), n.Expression.Value) {
+				fail("symbol-range", fmt.Sprintf("Go block %q: target symbol range %d..%d does not hold the block's text", clipS(n.Expression.Value), tgt.From.Index, tgt.To.Index))
+			}
+			if back, ok := sm.SymbolSourceRangeFromTarget(tgt.From.Line, tgt.From.Col); !ok || back != r {
+				fail("symbol-reverse", fmt.Sprintf("Go block %q: reverse symbol lookup gives %v, want %v", clipS(n.Expression.Value), back, r))
+			}
 		case parser.HTMLTemplate:
 			if startLines[n.Range.From.Line] == 1 {
 				checkSym("templ", funcName(n.Expression.Value), n.Range)
@@ -287,6 +306,13 @@ func checkProgram(p prog) {
 			}
 		}
 	}
+}
+
+func clipS(s string) string {
+	if len(s) > 60 {
+		return s[:60] + "…"
+	}
+	return s
 }
 
 // funcName extracts the function name of a templ signature ("T(x string)" or "(r recv) M(x string)").
